@@ -87,7 +87,7 @@ type ExpSim struct {
 	// context.Canceled / context.DeadlineExceeded - the error of a context of the evaluator's own (a per-generation time
 	// budget, a client call that timed out) while the context of the run is alive
 	EvalErrFlavor int
-	Fired      map[string]int
+	Fired         map[string]int
 	// per evaluation observations
 	EvalPops    []*genetics.Population
 	EvalTrial   []int
